@@ -340,3 +340,60 @@ func init() {
 		k(st, []Value{IntV{Ite(Lt(a.T, b.T), IntLit(-1), Ite(Gt(a.T, b.T), IntLit(1), IntLit(0)))}})
 	}
 }
+
+func init() {
+	// maps.Clone(m): a new map object with the same keys and (shallowly copied) values
+	models["maps.Clone"] = func(x *Exec, fr *Frame, st *State, pc *preparedCall, k func(*State, []Value)) {
+		src, ok := pc.args[0].(MapV)
+		if !ok || src.Const != nil {
+			panic(x.unsupported("maps.Clone of a non-heap map"))
+		}
+		x.guardCheck(st, mapKeyStr(src), src.ID, false)
+		dst := MapV{ID: x.allocAddr(st, "mapclone"), Type: src.Type}
+		ks := mapKeyStr(src)
+		for _, key := range st.heapKeys() {
+			if strings.HasPrefix(key, ks) && key != ks+"#card" {
+				arr := st.heap[key]
+				st.heap[key] = Store(arr, dst.ID, Select(arr, src.ID))
+			}
+		}
+		// rows not materialised yet: copy lazily known ones (present, card, every value leaf)
+		pres := st.heapArr(ks+"#present", ArrOf(SBool))
+		st.heap[ks+"#present"] = Store(pres, dst.ID, Select(pres, src.ID))
+		card := st.heapArr(ks+"#card", SInt)
+		st.heap[ks+"#card"] = Store(card, dst.ID, Select(card, src.ID))
+		zero := x.zeroValue(src.Type.Elem())
+		var ls []struct {
+			Path string
+			T    *Term
+		}
+		x.leavesOf(zero, "", &ls)
+		for _, l := range ls {
+			if l.T.Sort == SInt && strings.HasSuffix(l.Path, ".off") {
+				continue
+			}
+			arr := st.heapArr(ks+l.Path, ArrOf(l.T.Sort))
+			st.heap[ks+l.Path] = Store(arr, dst.ID, Select(arr, src.ID))
+		}
+		k(st, []Value{dst})
+	}
+	// time.NewTicker(d) / (*Ticker).Reset(d) panic for d <= 0; the ghost tickerival records the armed interval
+	models["time.NewTicker"] = func(x *Exec, fr *Frame, st *State, pc *preparedCall, k func(*State, []Value)) {
+		d := pc.args[0].(IntV).T
+		x.safety(fr, st, "pre", pc.e, Gt(d, IntLit(0)))
+		sig := pc.fn.Type().(*types.Signature)
+		p := x.zeroValue(x.resolveType(sig.Results().At(0).Type())).(PtrV)
+		p.Addr = x.allocAddr(st, "ticker")
+		x.ghostSet(st, "tickerival", p.Addr, d)
+		k(st, []Value{p})
+	}
+	models["time.Ticker.Reset"] = func(x *Exec, fr *Frame, st *State, pc *preparedCall, k func(*State, []Value)) {
+		d := pc.args[0].(IntV).T
+		x.safety(fr, st, "pre", pc.e, Gt(d, IntLit(0)))
+		x.ghostSet(st, "tickerival", pc.recv.(PtrV).Addr, d)
+		k(st, nil)
+	}
+	models["time.Ticker.Stop"] = func(x *Exec, fr *Frame, st *State, pc *preparedCall, k func(*State, []Value)) {
+		k(st, nil)
+	}
+}
